@@ -28,7 +28,8 @@ import (
 
 const (
 	c10CloseTimeout = time.Second
-	c10Bound        = 4 * time.Second // any single call: closeTimeout + lock waits + scheduling slack
+	c10MaxLag       = 100 * time.Millisecond // see runC10.fail
+	c10Bound        = 4 * time.Second        // any single call: closeTimeout + lock waits + scheduling slack
 )
 
 // libGoroutines returns the stacks of goroutines that are executing library code.
@@ -298,11 +299,20 @@ func runC10(rt *rapid.T) {
 		pwg.Wait()
 	}
 	defer cleanup()
+	// REAL time with timers of tens to hundreds of ms (T3 is 300 ms): if this process was scheduled
+	// more than c10MaxLag late during the case, a failure says more about the machine than about the
+	// library - it is counted and discarded (see vt.Lag; only failures are affected)
+	lag := vt.StartLag()
+	defer lag.Stop()
 	fail := func(f string, a ...any) {
 		hmu.Lock()
 		h := strings.Join(hist, "\n  ")
 		hmu.Unlock()
-		rt.Fatalf("C10 violated (secs1=%v active=%v linktest=%v): %s\nhistory:\n  %s", useSecs1, active, lt, fmt.Sprintf(f, a...), h)
+		if lag.Max() > c10MaxLag {
+			ev.Count("inconclusive_starved_machine", 1)
+			rt.Skip(fmt.Sprintf("inconclusive: this process was scheduled %v late (limit %v)", lag.Max(), c10MaxLag))
+		}
+		rt.Fatalf("C10 violated (secs1=%v active=%v linktest=%v, worst scheduling lag %v): %s\nhistory:\n  %s", useSecs1, active, lt, lag.Max(), fmt.Sprintf(f, a...), h)
 	}
 	// closeBounded is Close with a watchdog: a Close that does not return is a violation of C10 (not a
 	// test timeout), reported with the goroutine dump that shows where it is stuck
@@ -527,7 +537,16 @@ func runC10(rt *rapid.T) {
 					fail("a send on the reopened SECS-I connection failed: %v", serr)
 				}
 			} else {
-				rep, serr := w.conn.SendDataMessage(c2, 1, 1, true, secs2.A("again"))
+				// (T3 is 300 ms of REAL time here: on a busy machine the harness peer may simply be late;
+				// three attempts, one must succeed)
+				var rep *hsms.DataMessage
+				var serr error
+				for attempt := 0; attempt < 3; attempt++ {
+					rep, serr = w.conn.SendDataMessage(c2, 1, 1, true, secs2.A("again"))
+					if serr == nil || !errors.Is(serr, hsms.ErrT3Timeout) {
+						break
+					}
+				}
 				if serr != nil || rep == nil || rep.Function() != 2 {
 					cancel2()
 					fail("round trip on the reopened connection failed: %v", serr)
